@@ -259,7 +259,7 @@ class AddLinks(Contract):
             w1 = LW(p1)
             head1 = w1.f(fld, a)
             ex.oblige(p1, "appends-one-stub-per-target", p1.w["L.size"] == size0 + 16 * TN, None)
-            ex.oblige(p1, "empty-request-writes-nothing", z3.Implies(TN == 0, z3.And(*[p1.w[k] == p0.w[k] for k in p0.w if k.startswith(("T.", "L.", "G.")) and not k.startswith("old:")])), None)
+            ex.oblige(p1, "empty-request-writes-nothing", z3.Implies(TN == 0, z3.And(*[p1.w[k] == p0.w[k] for k in p0.w if k.startswith(("T.", "L.size")) and not k.startswith("old:")])), None)
             ex.oblige(p1, "list-head-repointed-to-the-last-new-stub", z3.Implies(TN > 0, head1 == size0 + 16 * (TN - 1)), None)
             ex.oblige(p1, "weights:new-list==old-list+submitted-targets", z3.Implies(TN > 0, z3.ForAll([t], z3.Select(w1.cnt0(head1), t) == z3.Select(w0.cnt0(head0), t) + CNTT(TN, t))), None)
             ex.oblige(p1, "old-stubs-unchanged", z3.ForAll([b], z3.Implies(b < size0, z3.And(w1.l("target", b) == w0.l("target", b), w1.l("prev", b) == w0.l("prev", b), w1.cnt(b) == w0.cnt(b)))), None)
@@ -289,6 +289,7 @@ def add_links_inv(ex, p):
     tn = p.env["tail_node"]
     b = z3.Int("b")
     t = z3.Int("t")
+    Wd.assume_A1(p)
     cs = list(LInv(p))
     cs.append(("stubs-appended-so-far", p.w["L.size"] == size0 + 16 * i))
     cs.append(("empty<=>no-iteration-yet", to_z3(ex.truth(p.env["empty"], p)) == (i == 0)))
@@ -380,6 +381,7 @@ def weighted_loop_inv(ex, p):
         ("node-fresh", z3.And(to_z3(d[0]) == w.l("target", nb), to_z3(d[1]) == w.l("prev", nb), to_z3(ex.truth(p.obj(n).f["exists"], p)))),
         ("weights+rest==chain", z3.ForAll([t], z3.If(z3.Select(wo.f["dom"], t), z3.Select(wo.f["val"], t), 0) + z3.Select(w.cnt0(w.l("prev", nb)), t) == z3.Select(w.cnt(b), t))),
         ("recorded-weights-are-positive", z3.ForAll([t], z3.Implies(z3.Select(wo.f["dom"], t), z3.Select(wo.f["val"], t) > 0))),
+        ("map-size-nonnegative", wo.f["n"] >= 0),
     ]
     return cs
 
